@@ -1141,6 +1141,64 @@ def _crossed_seq(rng, op, tb=None):
     return {'op': 'seq', 'runs': runs, '_decoy': rng.random() < 0.5}
 
 
+
+def _mj_removal_steps(ms_by_cand, k):
+    """number of one-grade-at-a-time removal rounds the default tie-break needs (None: a candidate runs out first)"""
+    ms = {c: dict(m) for c, m in ms_by_cand.items()}
+    steps = 0
+    while True:
+        if not ms or k <= 0:
+            return steps
+        sizes = {c: sum(m.values()) for c, m in ms.items()}
+        if any(s == 0 for s in sizes.values()):
+            return None
+        med = {c: lower_median(m) for c, m in ms.items()}
+        sure, level, places = nbest_ref(med, k)
+        if level is None:
+            return steps
+        if sure:
+            k -= len(sure)
+            ms = {c: m for c, m in ms.items() if c not in sure}
+            continue
+        for c, m in ms.items():
+            m[med[c]] -= 1
+        steps += 1
+
+
+def _mj_unequal_case(rng):
+    """3-5 candidates sharing the median while holding DIFFERENT numbers of grades (partial ballots, no unscored value), narrow
+    grade band, weights 1-3, kept only if the one-grade-at-a-time rule needs at least two removal rounds (seeded change C12j:
+    a removal step computed from another candidate's number of grades)"""
+    best = None
+    for _attempt in range(400):
+        m = rng.randint(3, 5)
+        votes, seen = [], set()
+        for _ in range(rng.randint(3, 6)):
+            cs = sorted(rng.sample(range(m), rng.randint(1, m - 1) if rng.random() < 0.8 else m))
+            b = tuple((c, str(rng.choice([0, 1, 1, 2, 2, 3]))) for c in cs)
+            if b not in seen:
+                seen.add(b)
+                votes.append([[list(x) for x in b], rng.randint(1, 3)])
+        c = {'op': 'mj', 'votes': votes, 'n': rng.randint(1, 2), 'tie_breaking': 'default', 'unscored': None,
+             'min_count': 0, 'truncation': '0', 'bottom': '0'}
+        prof = ref_score_profile(c)
+        agg, corr = ref_aggregate(prof, c, 'median_low')
+        if not agg or any(v is None for v in agg.values()):
+            continue
+        sure, level, places = nbest_ref(agg, c['n'])
+        if level is None or len(level) < 3:
+            continue
+        tied = {x: corr[x] for x in level}
+        if len({sum(mm.values()) for mm in tied.values()}) < 2:
+            continue
+        steps = _mj_removal_steps(tied, places)
+        if steps is None or steps < 2:
+            best = best or c
+            continue
+        return c
+    return best or c
+
+
 DIRECTED = [
     # PAV: the witness of fix c5ab27b (one seat on a fresh instance), a tie, call sequences around a two-seat call
     {'op': 'pav', 'votes': [[[0, 1], '3'], [[2], '2']], 'n': 1},
@@ -1189,6 +1247,10 @@ DIRECTED = [
     {'op': 'mj', 'votes': [[[[0, '3'], [1, '3'], [2, '3'], [3, '3']], 10], [[[0, '5'], [1, '1'], [3, '2']], 7],
                            [[[0, '1'], [1, '5'], [2, '2']], 6]], 'n': 3, 'tie_breaking': 'plus',
      'unscored': None, 'min_count': 0, 'truncation': '0', 'bottom': '0'},
+    # three candidates tied on the median with different numbers of grades; the rightful winner pulls ahead only after
+    # several single removals (the demo of seeded change C12j and a variant)
+    {'op': 'mj', 'votes': [[[[0, '1'], [1, '1']], 3], [[[0, '1'], [2, '2']], 1], [[[0, '3'], [2, '1']], 1], [[[0, '0'], [1, '3']], 2]],
+     'n': 1, 'tie_breaking': 'default', 'unscored': None, 'min_count': 0, 'truncation': '0', 'bottom': '0'},
     # one object, several calls: after an exception, and a larger profile before a smaller one
     {'op': 'seq', '_decoy': True, '_tags': ['seq_after_error'], 'runs': [
         {'op': 'allocated', 'votes': [[[[0, '5']], 2], [[[1, '3']], 1]], 'n': 2, 'quota': 'hare'},
@@ -1279,6 +1341,10 @@ def _raw_generate(rng, tier):
                 c = _crossed_seq(rng, op, tb)
                 c['_tags'] = ['crossed']
                 yield c
+    for _ in range(400 if q else 4000):
+        c = _mj_unequal_case(rng)
+        c['_tags'] = ['mj_unequal_search']
+        yield c
     for complete in (True, False):
         for _ in range(150 if q else 2000):
             c = _mj_shared_median_case(rng, complete)
@@ -1464,6 +1530,14 @@ def _tag(case):
             if level is not None:
                 tags.append('mj_tie_' + case['tie_breaking'])
                 tags.append('mj_' + r['kind'])
+                tied_ms = {x: corr[x] for x in level}
+                if len(level) >= 3 and len({sum(mm.values()) for mm in tied_ms.values()}) >= 2 \
+                        and case['tie_breaking'] == 'default':
+                    st = _mj_removal_steps(tied_ms, places)
+                    if st is not None and st >= 2:
+                        tags.append('mj_tiebreak_unequal_counts_multi_step')
+                        if st >= 3:
+                            tags.append('mj_tiebreak_unequal_counts_3_steps')
                 if len(level) >= 4 and places >= 3:
                     tags.append('mj_shared_median_3seats_' + ('partial' if 'partial_ballot' in tags else 'complete'))
                     if max(w for _, w in prof) >= 12:
@@ -1559,6 +1633,7 @@ REQUIRED_COUNTERS = ['pav_unique', 'pav_refusal', 'pav_one_seat', 'pav_one_seat_
                      'allocated_hagenbach_bischoff', 'allocated_imperiali', 'allocated_hare_rounded', 'allocated_quota_callable',
                      # structure
                      'mj_shared_median_3seats_complete', 'mj_shared_median_3seats_partial', 'mj_shared_median_heavy',
+                     'mj_tiebreak_unequal_counts_multi_step', 'mj_tiebreak_unequal_counts_3_steps',
                      # state between calls
                      'seq_spav', 'seq_score', 'seq_mj', 'seq_star', 'seq_allocated', 'seq_decoy_first', 'seq_larger_then_smaller',
                      'seq_after_error',
